@@ -331,10 +331,6 @@ def check(prop, tier, seed, replay):
                     notes.append("no MISMATCH list printed by %s" % os.path.basename(path))
                 corr_mismatch += lists.get("MISMATCH", []) if isinstance(lists.get("MISMATCH", []), list) else []
                 spec_fail += lists.get("SPECFAIL", []) if isinstance(lists.get("SPECFAIL", []), list) else []
-    obligations += 1
-    if corr_ok and not corr_mismatch:
-        discharged += 1
-
     for cid in spec_fail:
         c = case_index.get(str(cid))
         same = [f for f in failures if c is not None and f.get("replay") == c]
@@ -355,6 +351,14 @@ def check(prop, tier, seed, replay):
         else:
             new_failures.append(f)
 
+    # the correspondence obligation: model and implementation agree on every case, except cases
+    # that ALSO fail the oracle with a class listed as an open known finding (there the model
+    # follows the documented behaviour and the recorded defect is the difference)
+    unexplained_all = [m for m in corr_mismatch if not explained_by_known(m, case_index, failures, open_known)]
+    obligations += 1
+    if corr_ok and not unexplained_all:
+        discharged += 1
+
     exit_code = 0
     seen_classes = set()
     for f in new_failures:
@@ -368,7 +372,7 @@ def check(prop, tier, seed, replay):
         violations.append((rp, ""))
         print("  failing input (%s): %s" % (f["class"], str(f["what"])[:400]))
     if not new_failures:
-        unexplained = [m for m in corr_mismatch if not explained_by_known(m, case_index, failures, open_known)]
+        unexplained = unexplained_all
         if not proofs_ok:
             rp = write_replay(prop, "proof-broken", {"property": prop,
                               "broken": "proof obligations of Properties/%s.v (theorems: %s)" % (prop, ", ".join(thms)),
@@ -389,7 +393,7 @@ def check(prop, tier, seed, replay):
 
     write_evidence(prop, tier, seed, meta, res, obligations, discharged, thms,
                    {"assumptions_output": assumptions_out.strip()[:2000],
-                    "corr_mismatches": len(corr_mismatch), "spec_failures_in_kernel": len(spec_fail),
+                    "corr_mismatches": len(corr_mismatch), "corr_mismatches_explained_by_known_findings": len(corr_mismatch) - len(unexplained_all), "spec_failures_in_kernel": len(spec_fail),
                     "kernel_eval_s": round(kernel_s, 2), "known_findings_matched": matched,
                     "statements_in_cone": n_stmts, "cone_files": cone_files,
                     "oracle_failures_on_impl": len(failures)},
